@@ -283,6 +283,7 @@ def files():
     d = imgkit.tmpdir()
     g = imgkit.gif(W_PX, H_PX, 3, path=os.path.join(d, "c11-anim.gif"))
     _FILES["gif"] = g
+    _FILES["gif2"] = imgkit.gif(W_PX, H_PX, 2, path=os.path.join(d, "c11-anim2.gif"), duration=70)
     for mode, key in (("RGBA", "apng"), ("RGB", "apng-rgb")):
         p = os.path.join(d, f"c11-{key}.png")
         fr = _pattern_frames(2, mode)
@@ -302,7 +303,7 @@ def file_bytes(key):
         return f.read()
 
 
-N_FRAMES = {"gif": 3, "apng": 2, "apng-rgb": 2, "png": 1, "png-rgb": 1}
+N_FRAMES = {"gif": 3, "gif2": 2, "apng": 2, "apng-rgb": 2, "png": 1, "png-rgb": 1}
 
 
 # ---------------------------------------------------------------------------------- HTTP server
@@ -346,6 +347,8 @@ def start_server():
 
     routes = {
         "/anim.gif": (200, "image/gif", file_bytes("gif")),
+        "/a/x.gif": (200, "image/gif", file_bytes("gif")),       # same base name, different contents
+        "/b/x.gif": (200, "image/gif", file_bytes("gif2")),
         "/anim.png": (200, "image/png", file_bytes("apng")),
         "/still.png": (200, "image/png", file_bytes("png")),
         "/text.gif": (200, "image/gif", file_bytes("text")),
